@@ -32,6 +32,9 @@ struct S {
     /// timer deadlines may fire while tasks are runnable (thorough tier): ticks are then handled
     /// no earlier than due, but not necessarily at the exact instant
     time_races: bool,
+    /// the actor also arms two one-shots with a zero delay in started() ("right after this
+    /// callback"): a zero delay is a delay like any other
+    zero_shots: bool,
 }
 
 const M_UPWS: u32 = 11;
@@ -66,6 +69,10 @@ impl Scene for S {
     fn roles(&self) -> Vec<RoleCfg> {
         let mut r = RoleCfg::default();
         r.started_actions = vec![Action::Interval { timer: 1, period: 2 }, Action::DelayedSend { timer: 2, delay: 3 }];
+        if self.zero_shots {
+            r.started_actions.push(Action::DelayedSend { timer: 5, delay: 0 });
+            r.started_actions.push(Action::DelayedExec { timer: 6, delay: 0 });
+        }
         r.msg_actions = vec![
             (M_UPWS, Action::UpWeakSender),
             (M_UPWA, Action::UpWeakAddr),
@@ -242,6 +249,21 @@ impl Scene for S {
                     key: format!("C15/only-strong={sub}/interval-after-restart"),
                     detail: format!("after self-restart #{r} the interval ticked at {t1:?}; expected two ticks within 5 ticks"),
                 });
+            }
+        }
+        if self.zero_shots {
+            for r in 0..=self.with_restart as u16 {
+                let started = an.enters.iter().find(|e| e.a == 0 && e.cb == Cb::Started && e.inc == r).map(|e| e.time);
+                let Some(st) = started else { continue };
+                let sends: Vec<u64> = an.enters.iter().filter(|e| e.cb == Cb::Tick { timer: 5, reg_inc: r }).map(|e| e.time).collect();
+                let execs: Vec<u64> = an.enters.iter().filter(|e| e.cb == Cb::Exec { timer: 6, reg_inc: r }).map(|e| e.time).collect();
+                if sends != vec![st] || execs != vec![st] {
+                    out.push(Violation {
+                        clause: "timers-keep-firing",
+                        key: format!("C15/only-strong={sub}/zero-delay-one-shots"),
+                        detail: format!("incarnation {r} (started at t={st}) armed delayed_send and delayed_exec with a zero delay; handled at {sends:?} / {execs:?}, expected once each at t={st}"),
+                    });
+                }
             }
         }
         // a self-restart that reported success takes effect: one more incarnation starts
@@ -538,15 +560,25 @@ fn base_cases(tier: Tier) -> Vec<Case> {
                         desc: format!("strong-kinds subset={} path={:?} mailbox={} restart={} burst={}", subset_name(&subset), path, mailbox.name(), with_restart, burst),
                         exec: ExecCfg { horizon: 30, ..ExecCfg::default() },
                         bound: None,
-                        scene: Box::new(S { subset, path, mailbox, with_restart, burst, owner_dropped: false, time_races: false }),
+                        scene: Box::new(S { subset, path, mailbox, with_restart, burst, owner_dropped: false, time_races: false, zero_shots: false }),
                     });
+                    // zero-delay one-shots next to the other timers (one strong kind at a time)
+                    if mask.count_ones() == 1 && path == Path::Direct && with_restart <= 1 && !burst {
+                        v.push(Case {
+                            desc: format!("strong-kinds [zero-delay one-shots] subset={} path={:?} mailbox={} restart={} burst={}", subset_name(&subset), path, mailbox.name(), with_restart, burst),
+                            exec: ExecCfg { horizon: 30, ..ExecCfg::default() },
+                            // (two more timer tasks at t=0: deviation-bounded)
+                            bound: Some(if tier == Tier::Thorough { 4 } else { 2 }),
+                            scene: Box::new(S { subset, path, mailbox, with_restart, burst, owner_dropped: false, time_races: false, zero_shots: true }),
+                        });
+                    }
                     // the owner is dropped rather than detached (where it is not one of the survivors)
                     if !subset[1] && path == Path::Direct && with_restart <= 1 && !burst {
                         v.push(Case {
                             desc: format!("strong-kinds [owner dropped, not detached] subset={} path={:?} mailbox={} restart={} burst={}", subset_name(&subset), path, mailbox.name(), with_restart, burst),
                             exec: ExecCfg { horizon: 30, ..ExecCfg::default() },
                             bound: None,
-                            scene: Box::new(S { subset, path, mailbox, with_restart, burst, owner_dropped: true, time_races: false }),
+                            scene: Box::new(S { subset, path, mailbox, with_restart, burst, owner_dropped: true, time_races: false, zero_shots: false }),
                         });
                     }
                     // thorough: once more with timer deadlines racing runnable tasks
@@ -555,7 +587,7 @@ fn base_cases(tier: Tier) -> Vec<Case> {
                             desc: format!("strong-kinds [time races] subset={} path={:?} mailbox={} restart={} burst={}", subset_name(&subset), path, mailbox.name(), with_restart, burst),
                             exec: ExecCfg { horizon: 30, max_early_fires: 1, ..ExecCfg::default() },
                             bound: None,
-                            scene: Box::new(S { subset, path, mailbox, with_restart, burst, owner_dropped: false, time_races: true }),
+                            scene: Box::new(S { subset, path, mailbox, with_restart, burst, owner_dropped: false, time_races: true, zero_shots: false }),
                         });
                     }
                 }
